@@ -305,13 +305,13 @@ theorem adjF_eq_matrix (g : Graph) (hv : g.Valid) (f : Nat → Rat) (i : Nat) :
 def opFnD (g : Graph) : FieldOp → (Nat → Rat) → Nat → Rat
   | .dilation n _ => (dilF g)^[n]
   | .erosion n => (eroF g)^[n]
-  | .opening n _ => fun f => (dilF g)^[n] ((eroF g)^[n] f)
-  | .closing n _ => fun f => (eroF g)^[n] ((dilF g)^[n] f)
+  | .opening n => fun f => (dilF g)^[n] ((eroF g)^[n] f)
+  | .closing n => fun f => (eroF g)^[n] ((dilF g)^[n] f)
   | .diffusion n => (adjF g)^[n]
   | _ => id
 
 def isInPlace : FieldOp → Bool
-  | .dilation _ _ | .erosion _ | .opening _ _ | .closing _ _ | .diffusion _ => true
+  | .dilation _ _ | .erosion _ | .opening _ | .closing _ | .diffusion _ => true
   | _ => false
 
 /-- agreement on the vertices is all an operator looks at -/
@@ -333,8 +333,8 @@ theorem local_opFnD (g : Graph) (hv : g.Valid) (op : FieldOp) : Local g.V (opFnD
   cases op <;> simp only [opFnD]
   case dilation n _ => exact local_iterate (local_dilF g) n
   case erosion n => exact local_iterate (local_eroF g) n
-  case opening n _ => exact local_comp (local_iterate (local_dilF g) n) (local_iterate (local_eroF g) n)
-  case closing n _ => exact local_comp (local_iterate (local_eroF g) n) (local_iterate (local_dilF g) n)
+  case opening n => exact local_comp (local_iterate (local_dilF g) n) (local_iterate (local_eroF g) n)
+  case closing n => exact local_comp (local_iterate (local_eroF g) n) (local_iterate (local_dilF g) n)
   case diffusion n => exact local_iterate (local_adjF g hv) n
   all_goals exact fun f f' H i hi => H i hi
 
@@ -352,30 +352,100 @@ theorem dilate_eq (g : Graph) (hv : g.Valid) (n : Nat) (fast : Bool) (col : List
   · simp only [if_true]; rw [fastDilate_eq g hv n col hl]
 
 /-- every in-place method, on one column: the list it leaves is the operator applied to the column -/
-theorem colOp_spec (g : Graph) (hv : g.Valid) (op : FieldOp) (hop : isInPlace op = true)
+theorem colOp_spec (g : Graph) (hv : g.Valid) (is64 : Bool) (op : FieldOp) (hop : isInPlace op = true)
     (col : List Rat) (hl : col.length = g.V) :
-    ∃ F, colOp g op = some F ∧ F col = some ((List.range g.V).map (opFnD g op (at_ col))) := by
+    ∃ F, colOp g is64 op = some F ∧ F col = some ((List.range g.V).map (opFnD g op (at_ col))) := by
   have hat : ∀ (h : Nat → Rat), ∀ j < g.V, at_ ((List.range g.V).map h) j = h j :=
     fun h j hj => at_map_range h hj
   cases op <;> simp only [isInPlace] at hop <;> simp only [colOp, opFnD]
   all_goals try (exact absurd hop (by decide))
-  case dilation n fast => exact ⟨_, rfl, dilate_eq g hv n fast col hl⟩
+  case dilation n fast => exact ⟨_, rfl, dilate_eq g hv n (fast && is64) col hl⟩
   case erosion n => exact ⟨_, rfl, erode_eq g n col hl⟩
-  case opening n fast =>
+  case opening n =>
     refine ⟨_, rfl, ?_⟩
-    rw [erode_eq g n col hl, Option.bind_some, dilate_eq g hv n fast _ (by simp)]
+    rw [erode_eq g n col hl, Option.bind_some, dilate_eq g hv n is64 _ (by simp)]
     congr 1
     apply List.map_congr_left
     intro i hi
     exact local_iterate (local_dilF g) n _ _ (hat _) i (List.mem_range.1 hi)
-  case closing n fast =>
+  case closing n =>
     refine ⟨_, rfl, ?_⟩
-    rw [dilate_eq g hv n fast col hl, Option.bind_some, erode_eq g n _ (by simp)]
+    rw [dilate_eq g hv n is64 col hl, Option.bind_some, erode_eq g n _ (by simp)]
     congr 1
     apply List.map_congr_left
     intro i hi
     exact local_iterate (local_eroF g) n _ _ (hat _) i (List.mem_range.1 hi)
   case diffusion n => exact ⟨_, rfl, by rw [diffuse_eq g hv n col hl]⟩
+
+/-! ### graph edits inside a history -/
+
+def isGraphEdit : FieldOp → Bool
+  | .setEdges _ | .setWeights _ => true
+  | _ => false
+
+theorem mem_zipWith_elim {α β γ : Type} (f : α → β → γ) :
+    ∀ (l₁ : List α) (l₂ : List β) (c : γ), c ∈ List.zipWith f l₁ l₂ → ∃ a ∈ l₁, ∃ b ∈ l₂, f a b = c := by
+  intro l₁
+  induction l₁ with
+  | nil => intro l₂ c h; simp at h
+  | cons x t ih =>
+    intro l₂ c h
+    cases l₂ with
+    | nil => simp at h
+    | cons y t' =>
+      rw [List.zipWith_cons_cons, List.mem_cons] at h
+      rcases h with rfl | h
+      · exact ⟨x, List.mem_cons_self, y, List.mem_cons_self, rfl⟩
+      · obtain ⟨a, ha, b, hb, hab⟩ := ih t' c h
+        exact ⟨a, List.mem_cons_of_mem _ ha, b, List.mem_cons_of_mem _ hb, hab⟩
+
+theorem graphAfter_V (g : Graph) (op : FieldOp) : (graphAfter g op).V = g.V := by
+  cases op <;> simp only [graphAfter]
+  case setEdges es => split <;> rfl
+  case setWeights ws => split <;> rfl
+
+theorem graphAfter_valid (g : Graph) (hv : g.Valid) (op : FieldOp) : (graphAfter g op).Valid := by
+  cases op <;> simp only [graphAfter] <;> try exact hv
+  case setEdges es =>
+    split
+    · rename_i hok
+      simp only [edgesOk, Bool.and_eq_true, decide_eq_true_eq, List.all_eq_true] at hok
+      intro e he
+      simp only at he
+      obtain ⟨a, ha, b, _, rfl⟩ := mem_zipWith_elim _ _ _ _ he
+      have := hok.2 a ha
+      simpa using this
+    · exact hv
+  case setWeights ws =>
+    split
+    · intro e he
+      simp only at he
+      obtain ⟨a, ha, b, _, rfl⟩ := mem_zipWith_elim _ _ _ _ he
+      exact hv a ha
+    · exact hv
+
+theorem graphAfter_inPlace (g : Graph) (op : FieldOp) (h : isInPlace op = true) : graphAfter g op = g := by
+  cases op <;> simp only [isInPlace] at h <;> first | rfl | exact absurd h (by decide)
+
+/-- the field operator a history amounts to, the graph being edited along the way -/
+def histFrom (g : Graph) : List FieldOp → (Nat → Rat) → Nat → Rat
+  | [], f => f
+  | op :: t, f => histFrom (graphAfter g op) t (opFnD g op f)
+
+/-- the graph a history ends with -/
+def graphFrom (g : Graph) (ops : List FieldOp) : Graph := ops.foldl graphAfter g
+
+/-- the dtype flag a history ends with -/
+def flagFrom (b : Bool) (ops : List FieldOp) : Bool := ops.foldl is64After b
+
+theorem local_histFrom (ops : List FieldOp) : ∀ (g : Graph), g.Valid → Local g.V (histFrom g ops) := by
+  induction ops with
+  | nil => intro g _ f f' H i hi; exact H i hi
+  | cons op t ih =>
+    intro g hv f f' H
+    have h1 := ih (graphAfter g op) (graphAfter_valid g hv op)
+    rw [graphAfter_V] at h1
+    exact h1 _ _ (local_opFnD g hv op f f' H)
 
 /-! ### local maxima: the dilation loop marks exactly the local maxima -/
 
